@@ -17,7 +17,8 @@ def sockets_job(ctx, name="sockets"):
     core.run_harness(ctx.need_harness(), ["lifecycle", "-seed", ctx.seed, "-out", lt], wd, timeout=600)
     n_dgs = sum(1 for line in open(lt) if '"ev":"dgs"' in line)
     n_burst = sum(1 for line in open(lt) if '"ev":"burst"' in line)
-    if n_dgs == 0 or n_burst == 0:
+    unanswered = sum(1 for line in open(lt) if '"ev":"dgs"' in line and '"res":"reply"' not in line)
+    if n_dgs == 0 or (n_burst == 0 and unanswered == 0):
         raise Infra("the real-socket run delivered no datagram / no burst (no loopback sockets?)")
     runner.run_job(ctx, runner.TraceJob(name, "LifecycleTrace", lt, {"Lens": core.tla_set([ctx.prop])}, boundary=lambda e: False, replay=relife, attempts=4,
                                         meta={"family": "lifecycle"}))
